@@ -299,3 +299,35 @@ func (s *Spec) NormalizeLists() {
 		r.Prods = kept
 	}
 }
+
+// ForceMixableAny gives the Go type `any` (node kind 6) to a rule that has two
+// or more action methods and is consumed under a cardinality or in a @list by
+// another rule, so that GoVariant.MixedAny has something to mix and the type of
+// a generated rule ([]T, T?) is derived from it. It reports whether such a rule
+// exists.
+func (s *Spec) ForceMixableAny() bool {
+	ref := map[string]bool{}
+	for _, r := range s.Rules {
+		for _, p := range r.Prods {
+			for _, tt := range p.Terms {
+				if tt.Kind == KRule && tt.Name != r.Name && tt.Card != One {
+					ref[tt.Name] = true
+				}
+				if tt.Kind == KList && tt.Elem.Kind == KRule {
+					ref[tt.Elem.Name] = true
+				}
+			}
+		}
+	}
+	cnt := map[string]int{}
+	for _, m := range s.Methods(stageATypes) {
+		cnt[m.Rule]++
+	}
+	for ri, r := range s.Rules {
+		if ri != s.Start && ref[r.Name] && cnt[r.Name] >= 2 {
+			r.Ret = 6
+			return true
+		}
+	}
+	return false
+}
